@@ -1,7 +1,7 @@
 (* C12 -- statements only; see DESIGN.md section 6 C12.  Theorems are added as the proofs land;
    the witnesses below are evaluated in the kernel on the whole-parser model. *)
 From Coq Require Import String.
-From MdIt Require Import Prims Tables Tree Render Core Dump Dispatch.
+From MdIt Require Import Prims Tables Escape Tree Render Core Dump Dispatch EscapeProofs.
 Local Open Scope string_scope.
 Local Open Scope list_scope.
 Local Open Scope N_scope.
@@ -17,3 +17,45 @@ Example C12_witness_numeric_everywhere :
   html_of "C" "&#65; [l](/&#65; ""&#65;"")" = bs "<p>A <a href=""/A"" title=""A"">l</a></p>
 ".
 Proof. vm_compute. reflexivity. Qed.
+
+(* FULL STATEMENT (not proved end to end; decided on every run by the five-context oracle, the
+   round-trip oracle and the model/implementation correspondence): a valid reference or escape
+   denotes in a destination, title, reference definition and info string what it denotes in
+   paragraph text; escaping every punctuation character of a line displays that line.
+
+   PROVED PARTS, about the decoder used by destinations, titles, definitions and info strings
+   (unescape_all) -- paragraph text uses get_entity_from_str / numeric_code / code_to_str directly: *)
+
+(* every named reference of the implementation's entity table, standing alone, decodes to its value *)
+Theorem C12_named : forall k v, get_entity_from_str k = Some v -> unescape_all k = v.
+Proof. exact named_reference_decodes. Qed.
+
+(* every well-formed numeric reference (decimal 1-7 digits, x/X + 1-6 hex digits) decodes to the
+   character of its code point, U+FFFD when the code point is not allowed -- exactly as in text *)
+Theorem C12_numeric : forall body code, numeric_code body = Some code ->
+  unescape_all (38 :: 35 :: body ++ [59]) = code_to_str code.
+Proof. exact numeric_reference_decodes. Qed.
+
+(* which code points are allowed *)
+Theorem C12_valid_code : forall code,
+  is_valid_entity_code code = true <->
+  ~ (0xD800 <= code <= 0xDFFF) /\ ~ (0xFDD0 <= code <= 0xFDEF) /\
+  N.land code 0xFFFF <> 0xFFFF /\ N.land code 0xFFFF <> 0xFFFE /\
+  8 < code /\ code <> 0xB /\ ~ (0xE <= code <= 0x1F) /\ ~ (0x7F <= code <= 0x9F) /\ code <= 0x10FFFF.
+Proof. exact valid_entity_code_spec. Qed.
+
+(* every escapable punctuation character: backslash + c decodes to c; anything else keeps the backslash *)
+Theorem C12_escape : forall c, is_ascii_punct c = true -> unescape_all [92; c] = [c].
+Proof. exact escape_decodes. Qed.
+Theorem C12_escape_other : forall c, is_ascii_punct c = false -> c <> 38 -> c <> 92 -> unescape_all [92; c] = [92; c].
+Proof. exact escape_other_stays. Qed.
+
+Example C12_nonvacuous :
+  numeric_code (bs "x1F600") = Some 0x1F600 /\ numeric_code (bs "0000000") = Some 0 /\
+  code_to_str 0 = [239; 191; 189] /\ get_entity_from_str (bs "&amp;") = Some [38] /\ is_ascii_punct 96 = true.
+Proof. vm_compute. repeat split. Qed.
+
+Print Assumptions C12_named.
+Print Assumptions C12_numeric.
+Print Assumptions C12_valid_code.
+Print Assumptions C12_escape.
